@@ -72,6 +72,20 @@ func (s *c18servers) release(nonce int) bool {
 	return p.reply(c18Reply(p.query))
 }
 
+// releaseTC answers the held UDP query with TC=1 (the udp upstream then retries over TCP)
+func (s *c18servers) releaseTC(nonce int) bool {
+	s.mu.Lock()
+	p := s.pending[nonce]
+	delete(s.pending, nonce)
+	s.mu.Unlock()
+	if p == nil {
+		return false
+	}
+	r := c18Reply(p.query)
+	r[2] |= 0x02
+	return p.reply(r)
+}
+
 func (s *c18servers) serveStream(c net.Conn) {
 	defer c.Close()
 	var wm sync.Mutex
@@ -135,10 +149,22 @@ func c18ServersSetup() {
 			panic(err)
 		}
 		tlsCfg := &tls.Config{Certificates: []tls.Certificate{cert}}
-		// udp
-		uc, err := net.ListenUDP("udp", &net.UDPAddr{IP: net.IPv4(127, 0, 0, 1)})
-		if err != nil {
-			panic(err)
+		// udp, and a tcp listener on the same port for the TC fallback of the udp upstream
+		var uc *net.UDPConn
+		var fl net.Listener
+		for i := 0; ; i++ {
+			uc, err = net.ListenUDP("udp", &net.UDPAddr{IP: net.IPv4(127, 0, 0, 1)})
+			if err != nil {
+				panic(err)
+			}
+			fl, err = net.Listen("tcp", uc.LocalAddr().String())
+			if err == nil {
+				break
+			}
+			uc.Close()
+			if i > 50 {
+				panic(err)
+			}
 		}
 		go func() {
 			buf := make([]byte, 4096)
@@ -164,6 +190,7 @@ func c18ServersSetup() {
 				}
 			}()
 		}
+		listen(fl)
 		tl, err := net.Listen("tcp", "127.0.0.1:0")
 		if err != nil {
 			panic(err)
@@ -263,6 +290,9 @@ func c18RunAuto(m map[string]string, ops []string) string {
 	if addr == "" {
 		return "bad-case"
 	}
+	if c18UpstreamCrashes(m["up"]) {
+		return "panic"
+	}
 	s.mu.Lock()
 	s.seq++
 	nbase := s.seq * 100
@@ -346,6 +376,14 @@ func c18RunAuto(m map[string]string, ops []string) string {
 				continue
 			}
 			c18Until(c18Settle, func() bool { mu.Lock(); defer mu.Unlock(); return x.done })
+		case 'T':
+			mu.Lock()
+			x := exs[e]
+			mu.Unlock()
+			if m["up"] != "udp" || x == nil || !s.releaseTC(nbase+e) {
+				continue
+			}
+			c18Until(c18Settle, func() bool { mu.Lock(); d := x.done; mu.Unlock(); return d || s.seen(nbase+e) })
 		case 'c':
 			mu.Lock()
 			x := exs[e]
@@ -411,6 +449,9 @@ func c18AutoGen(r *rand.Rand, thorough bool, emit func(c, cat string)) {
 			emit("k="+c18UpModelKind[k]+" auto=1 up="+k+" ops="+ops, "up-"+k+"/fixed")
 		}
 	}
+	for _, ops := range []string{"s1,T1,C", "s1,T1,r1,C,s2", "s1,r1,s2,T2,s3,C", "s1,T1,c1,s2,T2,r2,C"} {
+		emit("k=pipe auto=1 up=udp ops="+ops, "up-udp/tc-fallback")
+	}
 	n := 18
 	if thorough {
 		n = 270
@@ -432,6 +473,9 @@ func c18AutoGen(r *rand.Rand, thorough bool, emit func(c, cat string)) {
 				ops = append(ops, "s"+strconv.Itoa(e))
 				started[e] = true
 			case x < 8:
+				if k == "udp" && r.Intn(2) == 0 {
+					ops = append(ops, "T"+strconv.Itoa(e))
+				}
 				ops = append(ops, "r"+strconv.Itoa(e))
 			default:
 				ops = append(ops, "c"+strconv.Itoa(e))
